@@ -117,26 +117,56 @@ def names_half(R, m):
     if not (idr[0] == 'seq' and len(idr[1]) == 3 and idr[1][1] == ('alt', [('ref', 'simple_identifier'), ('ref', 'escaped_identifier')])):
         raise HarnessError('grammar rule `identifier` no longer has the modelled shape')
 
-    rt = strlang.ReTranslator()
-    P = rt.language(J._parsable_str, 'fullmatch')
-    SIMPLE = rt.language(simple_pat, 'fullmatch', simple_fl)
-    ESCID = rt.language(esc_pat, 'fullmatch', esc_fl)
-    WORD1 = rt.language(r'\w', 'fullmatch')
-    WS1 = rt.language(ws_pat, 'fullmatch')
-    cs = rt.charsets
-    TOK = sx.to_z3(N.tok_lang(), cs)
-    TOKNOBT = sx.to_z3(N.tok_nobt(), cs)
-    TOK2 = sx.to_z3(N.tok2_lang(), cs)
-    DTOK = sx.to_z3(N.dtok_lang(), cs)
+    from vt.strlang_ext import ALL as A_, cat as c_, cset as s_, lit as l_, Rx as Rx_
+
+    def cont(x):
+        return c_(A_(), x, A_())
+
+    region_rx = {
+        'backtick': cont(l_('`')), 'backslash': cont(l_('\\')), 'bs-bt': cont(l_('\\`')), 'bs-bs-bt': cont(l_('\\\\`')),
+        'control': cont(s_([(0, 0x1f), (0x7f, 0x9f)])), 'latin1': cont(s_([(0xa0, 0xff)])), 'bmp': cont(s_([(0x100, 0xffff)])),
+        'astral': cont(s_([(0x10000, strlang.PYMAX)])), 'nonascii': cont(s_([(0x80, strlang.PYMAX)])),
+        'syntax': cont(s_(':,}>{< ()')), 'newline': cont(l_('\n')), 'trailing-bs': c_(A_(), l_('\\')),
+        'looks-escaped': c_(l_('`'), A_(), l_('`')), 'x-after-bs': cont(l_('\\x41')), 'digit': s_([(48, 57)]),
+        'colon-gt': s_(':>'), 'any1': Rx_('set', ((0, strlang.PYMAX),)),
+    }
+
+    def build(red):
+        rt = strlang.ReTranslator() if red is None else sx.ReducedReTranslator(red)
+        cs = rt.charsets
+        L = {}
+        L['P'] = rt.language(J._parsable_str, 'fullmatch')
+        L['SIMPLE'] = rt.language(simple_pat, 'fullmatch', simple_fl)
+        L['ESCID'] = rt.language(esc_pat, 'fullmatch', esc_fl)
+        L['WORD1'] = rt.language(r'\w', 'fullmatch')
+        L['WS'] = rt.language(ws_pat, 'fullmatch')
+        L['TOK'] = sx.to_z3(N.tok_lang(), cs, red)
+        L['TOKNOBT'] = sx.to_z3(N.tok_nobt(), cs, red)
+        L['TOK2'] = sx.to_z3(N.tok2_lang(), cs, red)
+        L['DTOK'] = sx.to_z3(N.dtok_lang(), cs, red)
+        for k, x in region_rx.items():
+            L['r:' + k] = sx.to_z3(x, cs, red)
+        return L, cs
+
+    _, cs = build(None)
+    red = sx.Reducer(cs)
+    L, _ = build(red)
+    REPS = red.repstar()
+    P, SIMPLE, ESCID, WORD1, WS = L['P'], L['SIMPLE'], L['ESCID'], L['WORD1'], L['WS']
+    TOK, TOKNOBT, TOK2, DTOK = L['TOK'], L['TOKNOBT'], L['TOK2'], L['DTOK']
+    ANY1 = L['r:any1']
+    WS1 = z3.Intersect(WS, ANY1)
     BT = strlang.re_lit('`')
     ESCAPED_EMIT = z3.Concat(BT, z3.Star(TOK), BT)
     EMIT = z3.Union(P, ESCAPED_EMIT)
+    R.ob('names: alphabet compressed to one representative per character-class signature (all of Unicode incl. planes '
+         'above U+2FFFF)', 'discharged', 0.0, {'charsets': len(cs), 'classes': len(red.reps)}, nontrivial=True)
 
-    ok, det = strlang.high_plane_reduction(cs)
-    R.ob('names: code points above U+2FFFF share a class signature with a lower one', 'discharged' if ok
-         else 'not_discharged', 0.0, det, nontrivial=True)
-    if not ok:
-        raise HarnessError(f'alphabet reduction failed: {det}')
+    def in_(lang, w):
+        return red.in_lang(lang, w)
+
+    def R_(z):
+        return z3.Intersect(z, REPS)
 
     # ---- tabulation of the per-code-point escape from the REAL functions (k = 1, exhaustive over the alphabet)
     t = time.time()
@@ -155,43 +185,57 @@ def names_half(R, m):
 
     # ---- translator validation: regex translations vs the real `re`, whole-string escape model vs the real function
     t = time.time()
+    rg = lambda k: L['r:' + k]  # noqa: E731
     hard_regions = {
-        'simple': P, 'simple-nonascii': z3.Intersect(P, has_set([(0x80, strlang.ZMAX)])),
-        'backtick': contains('`'), 'backslash': contains('\\'), 'bs-bt': contains('\\`'), 'bs-bs-bt': contains('\\\\`'),
-        'control': has_set([(0, 0x1f), (0x7f, 0x9f)]), 'latin1': has_set([(0xa0, 0xff)]), 'bmp': has_set([(0x100, 0xffff)]),
-        'astral': has_set([(0x10000, strlang.ZMAX)]), 'syntax': has_set([(ord(c), ord(c)) for c in ':,}>{< ()']),
-        'word-not-simple': z3.Intersect(z3.Plus(WORD1), z3.Complement(P)), 'digit-start': z3.Concat(
-            strlang.z3_charset([(48, 57)]), z3.Star(WORD1)), 'newline': contains('\n'), 'trailing-bs': z3.Concat(FULL(), strlang.re_lit('\\')),
-        'looks-escaped': z3.Concat(BT, FULL(), BT), 'x-after-bs': contains('\\x41'), 'empty': strlang.re_eps(),
+        'simple': P, 'simple-nonascii': z3.Intersect(P, rg('nonascii')),
+        'backtick': rg('backtick'), 'backslash': rg('backslash'), 'bs-bt': rg('bs-bt'), 'bs-bs-bt': rg('bs-bs-bt'),
+        'control': rg('control'), 'latin1': rg('latin1'), 'bmp': rg('bmp'), 'astral': rg('astral'), 'syntax': rg('syntax'),
+        'word-not-simple': z3.Intersect(z3.Plus(WORD1), z3.Complement(P)), 'digit-start': z3.Concat(rg('digit'), z3.Star(WORD1)),
+        'newline': rg('newline'), 'trailing-bs': rg('trailing-bs'), 'looks-escaped': rg('looks-escaped'),
+        'x-after-bs': rg('x-after-bs'),
     }
     lens = [1, 2, 3, 5] if R.tier == 'quick' else [1, 2, 3, 4, 5, 7, 9]
     names = ['']
+    by_region = {'empty': ['']}
     for nm, z in hard_regions.items():
-        for w in pick(z, lens):
+        by_region[nm] = pick(R_(z), lens)
+        for w in by_region[nm]:
             if w not in names:
                 names.append(w)
+    names_half.by_region = by_region
+    # the solver only ever returns class representatives; add hand-picked members of the same regions with other characters
+    names += [w for w in ['é', 'aé', 'ß1', '٣', 'a٣', '\u2028', 'a b', 'a:b', 'a`b', 'a\\b', '\\', '`', '``', '\\`', '`\\', 'x\ty', '\x7f',
+                          '\x80', 'ÿ', 'Ā', '\uffff', '\U00010000', '\U0010ffff', 'a\U0001f600', '\\x41', '\\u0041', '\\N{DASH}', '\\101',
+                          'a' * 40, '_', '9', 'int32', 'struct', '\\\n', "'", '"', 'ǅ', 'ⅷ', '²', '_\u0300']
+              if w not in names]
     P_re = J._parsable_str
     for w in names:
         R.validation_points += 1
         for lang, pat, what in ((P, P_re, '_parsable_str'), (SIMPLE, re.compile(simple_pat, simple_fl), 'simple_identifier'),
                                 (ESCID, re.compile(esc_pat, esc_fl), 'escaped_identifier')):
-            if sx.in_lang(lang, w) != (pat.fullmatch(w) is not None):
+            if in_(lang, w) != (pat.fullmatch(w) is not None):
                 raise HarnessError(f'regex translation of {what} disagrees with re.fullmatch on {w!r}')
         e_real = J.escape_parsable(w)
         if e_real != model_escape(P_re, w):
             raise HarnessError(f'escape model disagrees with the real escape_parsable on {w!r}: {e_real!r}')
-        if not sx.in_lang(EMIT, e_real):
+        if not in_(EMIT, e_real):
             raise HarnessError(f'EMIT language does not contain the real escape_parsable({w!r}) = {e_real!r}')
-    # also members of the grammar languages pushed through re (other direction)
-    for lang, pat in ((ESCID, re.compile(esc_pat, esc_fl)), (z3.Complement(ESCID), None), (SIMPLE, re.compile(simple_pat, simple_fl))):
-        for w in pick(lang, lens):
+        # the round trip itself, on the real functions
+        if e_real.startswith('`') and J.unescape_parsable(e_real[1:-1]) != w:
+            st = R.finding('escape-roundtrip-changes-name', f'unescape_parsable(escape_parsable({w!r})) == '
+                           f'{J.unescape_parsable(e_real[1:-1])!r}', {'kind': 'name', 'name': w})
+            R.ob(f'names: round trip of solver-chosen name {w!r}', st, 0.0)
+    # members / non-members of the grammar languages pushed through re (other direction)
+    esc_re = re.compile(esc_pat, esc_fl)
+    simple_re = re.compile(simple_pat, simple_fl)
+    for lang, want, rx_ in ((ESCID, True, esc_re), (z3.Complement(ESCID), False, esc_re), (SIMPLE, True, simple_re),
+                            (z3.Complement(SIMPLE), False, simple_re)):
+        for w in pick(R_(lang), lens):
             R.validation_points += 1
-            if pat is not None and pat.fullmatch(w) is None:
-                raise HarnessError(f'regex translation accepts {w!r}, re.fullmatch does not')
-            if pat is None and re.compile(esc_pat, esc_fl).fullmatch(w) is not None:
-                raise HarnessError(f'regex translation rejects {w!r}, re.fullmatch accepts')
+            if (rx_.fullmatch(w) is not None) != want:
+                raise HarnessError(f'regex translation and re.fullmatch disagree on {w!r}')
     # decoder model vs the real codec on solver-chosen token strings
-    for w in pick(z3.Star(TOK2), [1, 2, 3, 4, 6, 8, 10, 12, 15]) + pick(z3.Star(DTOK), [2, 4, 6, 10, 11, 14]):
+    for w in pick(R_(z3.Star(TOK2)), [1, 2, 3, 4, 6, 8, 10, 12, 15]) + pick(R_(z3.Star(DTOK)), [2, 4, 6, 10, 11, 14]):
         R.validation_points += 1
         want = N.py_decode_model(w)
         try:
@@ -206,8 +250,6 @@ def names_half(R, m):
     # ---- the language obligations (any length) --------------------------------------------------------------
     def real_name_fails(kind):
         def f(w):
-            # w is an emitted identifier text or a body; find a name producing it is not needed: replay the
-            # whole pipeline on candidate names derived from the witness
             cands = []
             if w.startswith('`') and w.endswith('`') and len(w) >= 2:
                 try:
@@ -222,32 +264,30 @@ def names_half(R, m):
             raise HarnessError(f'language counterexample {w!r} ({kind}) does not reproduce through the real dtype(str(t))')
         return f
 
-    empty(R, 'names: every simple name emitted as-is is matched whole by simple_identifier (P ⊆ L(\\w+))',
-          z3.Intersect(P, z3.Complement(SIMPLE)), real_name_fails('identifier-rule-rejects-emitted-name'), twin=P)
-    empty(R, 'names: every escaped form `…` is matched by escaped_identifier', z3.Intersect(ESCAPED_EMIT, z3.Complement(ESCID)),
-          real_name_fails('identifier-rule-rejects-emitted-name'), twin=ESCAPED_EMIT)
-    empty(R, 'names: escaped_identifier is prefix-free (the regex can stop only at the closing backtick)',
-          z3.Intersect(ESCID, z3.Concat(ESCID, z3.Plus(z3.AllChar(strlang.RE_SORT)))),
-          real_name_fails('identifier-rule-splits-emitted-name'), twin=ESCID)
-    empty(R, 'names: an escaped form never starts like a simple identifier or whitespace (ordered choice picks escaped_identifier)',
-          z3.Intersect(ESCAPED_EMIT, z3.Concat(z3.Union(WORD1, z3.Intersect(WS1, z3.AllChar(strlang.RE_SORT))), FULL())),
-          real_name_fails('identifier-rule-splits-emitted-name'), twin=ESCAPED_EMIT)
-    empty(R, 'names: the characters following an identifier in printed types (":" and ">") end \\w+ and are not whitespace',
-          z3.Intersect(z3.Union(strlang.re_lit(':'), strlang.re_lit('>')), z3.Union(WORD1, WS1)),
-          real_name_fails('identifier-rule-splits-emitted-name'), twin=strlang.re_lit(':'))
-    empty(R, 'names: simple names contain no whitespace (the `_` rule cannot eat part of a name)',
-          z3.Intersect(P, z3.Concat(FULL(), z3.Intersect(WS1, z3.AllChar(strlang.RE_SORT)), FULL())),
-          real_name_fails('identifier-rule-splits-emitted-name'), twin=P)
+    def E_(name, z, cls, twin):
+        empty(R, name, R_(z), real_name_fails(cls), twin=R_(twin))
+
+    E_('names: every simple name emitted as-is is matched whole by simple_identifier (P ⊆ L(\\w+))',
+       z3.Intersect(P, z3.Complement(SIMPLE)), 'identifier-rule-rejects-emitted-name', P)
+    E_('names: every escaped form `…` is matched by escaped_identifier', z3.Intersect(ESCAPED_EMIT, z3.Complement(ESCID)),
+       'identifier-rule-rejects-emitted-name', ESCAPED_EMIT)
+    E_('names: escaped_identifier is prefix-free (the regex can stop only at the closing backtick)',
+       z3.Intersect(ESCID, z3.Concat(ESCID, z3.Plus(ANY1))), 'identifier-rule-splits-emitted-name', ESCID)
+    E_('names: an escaped form never starts like a simple identifier or whitespace (ordered choice picks escaped_identifier)',
+       z3.Intersect(ESCAPED_EMIT, z3.Concat(z3.Union(WORD1, WS1), FULL())), 'identifier-rule-splits-emitted-name', ESCAPED_EMIT)
+    E_('names: the characters following an identifier in printed types (":" and ">") end \\w+ and are not whitespace',
+       z3.Intersect(rg('colon-gt'), z3.Union(WORD1, WS1)), 'identifier-rule-splits-emitted-name', rg('colon-gt'))
+    E_('names: simple names contain no whitespace (the `_` rule cannot eat part of a name)',
+       z3.Intersect(P, z3.Concat(FULL(), WS1, FULL())), 'identifier-rule-splits-emitted-name', P)
     # unescape lifts from one code point to any string
     bsbt = strlang.re_lit('\\`')
     misaligned = z3.Union(
-        z3.Concat(z3.Star(TOK), z3.Intersect(TOKNOBT, contains('`')), z3.Star(TOK)),
-        z3.Concat(z3.Star(TOK), z3.Intersect(TOK, z3.Concat(FULL(), strlang.re_lit('\\'))),
-                  z3.Intersect(TOK, z3.Concat(BT, FULL())), z3.Star(TOK)))
-    empty(R, 'names: in a concatenation of escapes every backslash-backtick is an escaped backtick (replace acts token-wise)',
-          misaligned, real_name_fails('escape-roundtrip-changes-name'), twin=z3.Concat(z3.Star(TOK), bsbt, z3.Star(TOK)))
-    empty(R, 'names: every escape (after the replace) is a self-delimiting token of the unicode_escape decoder',
-          z3.Intersect(TOK2, z3.Complement(DTOK)), real_name_fails('escape-roundtrip-changes-name'), twin=TOK2)
+        z3.Concat(z3.Star(TOK), z3.Intersect(TOKNOBT, rg('backtick')), z3.Star(TOK)),
+        z3.Concat(z3.Star(TOK), z3.Intersect(TOK, rg('trailing-bs')), z3.Intersect(TOK, z3.Concat(BT, FULL())), z3.Star(TOK)))
+    E_('names: in a concatenation of escapes every backslash-backtick is an escaped backtick (replace acts token-wise)',
+       misaligned, 'escape-roundtrip-changes-name', z3.Concat(z3.Star(TOK), bsbt, z3.Star(TOK)))
+    E_('names: every escape (after the replace) is a self-delimiting token of the unicode_escape decoder',
+       z3.Intersect(TOK2, z3.Complement(DTOK)), 'escape-roundtrip-changes-name', TOK2)
     return names
 
 
@@ -279,15 +319,15 @@ def structure_half(R, m, names):
             R.encode(f'{PARSING_PY}:{n.lineno} TypeConstructor', ast.get_source_segment(ptext, n))
     # hard names for the harness: at most H, covering every region (first picks of each region come first)
     H = 8 if R.tier == 'quick' else 14
-    chosen = [w for w in names if w != ''][:0]
-    seen_regions = []
-    for w in names:
-        if len(chosen) >= H:
-            break
-        if w not in chosen and (len(w) <= 3):
-            chosen.append(w)
-    if '' not in chosen:
-        chosen[-1] = ''
+    chosen = []
+    by_region = names_half.by_region
+    order = ['empty', 'bs-bt', 'backtick', 'simple', 'syntax', 'astral', 'backslash', 'control', 'word-not-simple', 'bmp',
+             'newline', 'simple-nonascii', 'latin1', 'trailing-bs', 'looks-escaped', 'digit-start', 'bs-bs-bt', 'x-after-bs']
+    for rank in range(3):
+        for reg in order:
+            cand = [w for w in by_region.get(reg, []) if len(w) <= 4]
+            if rank < len(cand) and cand[rank] not in chosen and len(chosen) < H:
+                chosen.append(cand[rank])
     os.makedirs(os.path.join(VERIF, 'harness', 'gen'), exist_ok=True)
     with open(os.path.join(VERIF, 'harness', 'gen', 'C31_hardnames.json'), 'w', encoding='utf-8') as f:
         json.dump(chosen, f)
